@@ -257,6 +257,7 @@ def run_c07_stage(run, cases, limit=None):
     st["c07_cases_rendered"] = len(corpus) + len(gen)
     st.pop("sample", None)
     run.notes["text_under_conversion"] = st
+    run.violations.sort(key=lambda v: not v[2])      # as in c07.main: violations with a concrete failing input first
     return st
 
 
@@ -272,8 +273,8 @@ def rate_gen(r, smax):
         return (-r.randint(1, 5000), r.randint(0, 3))                 # negative rate
     if k < 0.30:
         return (r.choice([5, 25, 75, 125, 15, 35, 45]), r.randint(1, 3))   # x.5-like rates: mid-points after conversion
-    if k < 0.40:
-        s = r.randint(20, 28)                                         # up to 28 decimals
+    if k < 0.36:
+        s = r.randint(18, 28)                                         # up to 28 decimals
         return (r.randint(1, 10 ** r.randint(1, 27 - max(0, s - 27))), s)
     if k < 0.85:
         return (r.randint(1, 50000), r.randint(0, 4))
@@ -341,6 +342,12 @@ def gen_case(r, i, kind=None):
             t["desc"] = r.choice(["desc", "it's (c)", "ünï ¢"])
         txns.append(t)
     ents = C7.gen_entries(r, comms, tgt, anc)
+    have = {(e["ns"], e["base"], e["eq"]) for e in ents}
+    for b in comms:                 # mostly there is a price before every transaction: conversions happen
+        if b != tgt and r.random() < 0.65:
+            ns0 = min(anc) - r.randint(401, 430) * C7.DAY
+            if (ns0, b, tgt) not in have:
+                ents.insert(r.randint(0, len(ents)), {"ns": ns0, "base": b, "rate": None, "eq": tgt, "ts": C7.fmt_ts(r, ns0), "tail": "", "sp": [" "] * 4})
     for e in ents:
         e["rate"] = rate_gen(r, smax)
     sel = []
